@@ -124,7 +124,7 @@ class C09(Driver):
             "bracket flag, structs with prototypes; aliasing and cycles; numbers/strings at codec width boundaries) plus a seeded "
             "set of closures sharing variables, suspended fibers (live locals, pending defers, suspended children, closure "
             "environments on their stacks), channels with queued items, compiled PEGs, boxed 64-bit integers, RNGs; 1-3 "
-            "restarts; four lookup-table modes; a run is non-trivial when an image was unmarshalled in a fresh VM and continued, "
+            "restarts; five lookup-table modes; a run is non-trivial when an image was unmarshalled in a fresh VM and continued, "
             "or an asm(disasm) copy was called; distinct = distinct sha256(plan)")
     assumptions = [
         "reference = the same continuation run in the first VM on a second instance built by the same deterministic code; "
@@ -326,7 +326,7 @@ class C09(Driver):
                 "closure_env_on_alive_stack_marshalled": int(bool(plan.get("live_env")) and "build_env" in tags),
                 "channel_items_restored": int("channel_items" in tags), "peg_restored": int("peg" in tags),
                 "int64_restored": int("int64" in tags), "lookup_table_used": int(plan["dict"] != "none"),
-                "custom_lookup_entries_used": int(plan["dict"] in ("env", "custom") and "ext" in tags),
+                "custom_lookup_entries_used": int(plan["dict"] in ("env", "custom", "layered") and "ext" in tags),
                 "second_restart": int(loaded >= 2), "third_restart": int(loaded >= 3),
                 "collector_forced": int(bool(plan["knobs"].get("gc"))),
                 "no_cycles_flag_image": int(bool(plan.get("nocycles"))),
